@@ -3248,6 +3248,11 @@ func (gbi *groupByIterator) nextAtIdx(i int) {
 		}
 		if wrapped && i != 0 {
 			gbi.nextAtIdx(i - 1)
+			if gbi.done {
+				// the fields before this one are exhausted: there is no row
+				// left to intersect with, and looping on would never end
+				return
+			}
 		}
 		if i == 0 && gbi.filter != nil {
 			gbi.rows[i].row = nr.Intersect(gbi.filter)
